@@ -140,6 +140,11 @@ class Program:
         if with_cython:
             self._load_cython()
         self._index()
+        try:
+            from . import treecmp as _treecmp
+            _treecmp.set_signatures(self)
+        except Exception:
+            pass
         if alpha:
             # purely renamed locals get the names of the confirmed reference (sa/alpha.py) before any rule looks at them
             from . import alpha as _alpha
